@@ -128,6 +128,34 @@ pub fn seg_data(s: &Seg) -> Vec<u8> {
             }
             v
         }
+        "wordy" => {
+            // stretches of words from a small vocabulary (every position has a short match, so the optimal parser keeps
+            // extending its look-ahead chain up to its limit), each followed by a phrase seen before (a match of maximal
+            // length met deep inside the look-ahead)
+            let mut r = gen::Rng::new(s.seed ^ 0x77);
+            let words: Vec<Vec<u8>> = (0..300)
+                .map(|_| {
+                    let l = 2 + r.below(9) as usize;
+                    (0..l).map(|_| b'a' + r.below(26) as u8).collect()
+                })
+                .collect();
+            let plen = if s.period > 0 { s.period } else { 400 };
+            let phrase: Vec<u8> = (0..plen).map(|_| b'A' + r.below(26) as u8).collect();
+            let mut v = Vec::with_capacity(s.len + 8192);
+            v.extend_from_slice(&phrase);
+            while v.len() < s.len {
+                let end = v.len() + 3000 + r.below(3000) as usize;
+                while v.len() < end {
+                    let w = &words[r.below(words.len() as u64) as usize];
+                    v.extend_from_slice(w);
+                    v.push(b' ');
+                }
+                v.truncate(end);
+                v.extend_from_slice(&phrase);
+            }
+            v.truncate(s.len);
+            v
+        }
         c => gen::data(c, s.len, s.seed),
     }
 }
@@ -250,8 +278,20 @@ fn encode_once(j: &Job, data: &[u8], preset: &Option<Vec<u8>>) -> std::result::R
     let mut off = 0usize;
     let mut steps: Vec<Step> = j.script.clone();
     let covered: usize = steps.iter().filter(|s| s.op == "w").map(|s| s.n).sum();
-    if covered < data.len() {
+    if covered < data.len() && !steps.iter().any(|s| s.op == "wall") {
         steps.push(Step { op: "w".into(), n: data.len() - covered, d: 0 });
+    }
+    // "wall": the rest of the input in pieces of n bytes
+    if let Some(i) = steps.iter().position(|s| s.op == "wall") {
+        let piece = steps[i].n.max(1);
+        let done: usize = steps[..i].iter().filter(|s| s.op == "w").map(|s| s.n).sum();
+        steps.truncate(i);
+        let mut left = data.len().saturating_sub(done);
+        while left > 0 {
+            let n = left.min(piece);
+            steps.push(Step { op: "w".into(), n, d: 0 });
+            left -= n;
+        }
     }
     for s in &steps {
         match s.op.as_str() {
@@ -619,7 +659,7 @@ pub fn run_job(j: &Job) -> Value {
     }
     let all = vt::counters();
     let sh = vw::shadows();
-    let shadow_json = |s: &[vw::Shadow; 5]| -> Value {
+    let shadow_json = |s: &[vw::Shadow; 6]| -> Value {
         Value::Array(
             s.iter()
                 .enumerate()
@@ -638,7 +678,7 @@ pub fn run_job(j: &Job) -> Value {
     m.insert("first_diff".into(), json!(first_diff));
     m.insert(
         "cov".into(),
-        json!({"moves": enc_counters[vw::C_MOVE], "pending_reprocessed": enc_counters[vw::C_PENDING],
+        json!({"moves": enc_counters[vw::C_MOVE], "moves_pending": enc_counters[vw::C_MOVE_PENDING], "pending_reprocessed": enc_counters[vw::C_PENDING],
                "pending_positions": enc_counters[vw::C_PENDING_POS],
                "chunks_lzma": enc_counters[vw::C_CHUNK_LZMA], "chunks_raw": enc_counters[vw::C_CHUNK_RAW],
                "renorm": enc_counters[vw::C_RENORM], "fills": enc_counters[vw::C_FILL],
